@@ -1434,13 +1434,23 @@ protected:
 
       if (chunkSize == 0)
       {
-        // Final chunk, look for final \r\n
-        auto finalCRLF = data.find("\r\n", pos);
-        if (finalCRLF == std::string::npos)
+        // Last chunk: the message ends with the trailer section (zero or more
+        // field lines) followed by an EMPTY line (RFC 9112 §7.1.2). Stopping at
+        // the first CRLF cut a request with trailers short and left the rest of
+        // it in front of the next pipelined request.
+        while (true)
         {
-          return std::string::npos; // Need more data
+          auto lineEnd = data.find("\r\n", pos);
+          if (lineEnd == std::string::npos)
+          {
+            return std::string::npos; // Need more data
+          }
+          if (lineEnd == pos)
+          {
+            return lineEnd + 2; // empty line: end of message
+          }
+          pos = lineEnd + 2; // skip one trailer field line
         }
-        return finalCRLF + 2;
       }
 
       // Skip chunk data + trailing \r\n. Subtraction-based bounds: the former
